@@ -106,6 +106,16 @@ def t3_reexport() -> Iterator[Dict[str, Any]]:
             else:
                 mods.append(mod("cr", 1, ops=flat(frm(rex, exported, "Y"), cls("E", "Y"), cls("E3", "Y.In"))))
         yield project(mods, "T3", where=where, form=form, consumers=cons, exported=exported, rex=rex)
+    # what is re-exported is a function or a variable (documented on the page of its module, not on a page of its own)
+    for where, kind in itertools.product(["pkg", "sibling"], ["def", "var"]):
+        thing = fn("X") if kind == "def" else var("X")
+        impl = mod("_impl", 1, ops=flat(thing, cls("Other")))
+        mods = [mod("p", pkg=True, ops=[frm("_impl", "X", lvl=1)] if where == "pkg" else [], all=["X"] if where == "pkg" else None), impl]
+        if where == "sibling":
+            mods.append(mod("api", 1, ops=[frm("_impl", "X", lvl=1)], all=["X"]))
+        mods.append(mod("co", 1, ops=flat(frm("p._impl", "X", "Y"), alias("z", "Y"), imp("p._impl", "im"), alias("w", "im.X"))))
+        mods.append(mod("cr", 1, ops=flat(frm("p" if where == "pkg" else "p.api", "X", "Y"), alias("z", "Y"))))
+        yield project(mods, "T3", where=where, reexported_kind=kind, consumers=["o", "r"])
     # the defining module also binds the name by an (optional accelerator) import: the alias left by the move must win
     for where in ("pkg", "sibling"):
         impl = mod("_impl", 1, ops=flat(cls("X", body=[fn("meth")]), {**frm("_speedups", "X"), "try": True}))
